@@ -569,10 +569,6 @@ func c03KF(c c03Case, v *Violation) []string {
 				sigs = append(sigs, "cut-site-absorbed-by-neighbour")
 			}
 		}
-	case "references":
-		if wrap && c.GenBank {
-			sigs = append(sigs, "wrap-slice-references-unrotated")
-		}
 	}
 	return sigs
 }
